@@ -73,7 +73,11 @@ package vss
 //@   ensures [C20.curve-field-rewritten-with-same-value] fieldheap("crypto.ECPoint", "curve") == old(fieldheap("crypto.ECPoint", "curve"))
 //@   ensures [C15.threshold-and-count] result ==> (share.Threshold == threshold && len(vs) == threshold + 1)
 //@   ensures [C15.nonzero-id-and-share] result && issecp(ec) ==> (val(share.ID) % curveN(ec) != 0 && val(share.Share) % curveN(ec) != 0)
+//@   ensures [C15.degree-0-share-times-G-equals-the-commitment] (result && threshold == 0) ==> (ecbasex(ec, val(share.Share)) == px(vs[0]) && ecbasey(ec, val(share.Share)) == py(vs[0]))
+//@   ensures [C15.degree-1-share-times-G-equals-the-evaluated-commitments] (result && threshold == 1) ==> (ecbasex(ec, val(share.Share)) == ecaddx(ec, px(vs[0]), py(vs[0]), ecmulx(ec, px(vs[1]), py(vs[1]), val(share.ID) % curveN(ec)), ecmuly(ec, px(vs[1]), py(vs[1]), val(share.ID) % curveN(ec))) && ecbasey(ec, val(share.Share)) == ecaddy(ec, px(vs[0]), py(vs[0]), ecmulx(ec, px(vs[1]), py(vs[1]), val(share.ID) % curveN(ec)), ecmuly(ec, px(vs[1]), py(vs[1]), val(share.ID) % curveN(ec))))
 //@   loop 0 invariant 1 <= j && j <= threshold + 1 && len(vs) == threshold + 1 && t != nil && val(t) >= 0 && validPoint(v) && v.curve == ec
+//@   loop 0 invariant j == 1 ==> (v == vs[0] && val(t) == 1)
+//@   loop 0 invariant j == 2 ==> (px(v) == ecaddx(ec, px(vs[0]), py(vs[0]), ecmulx(ec, px(vs[1]), py(vs[1]), val(share.ID) % curveN(ec)), ecmuly(ec, px(vs[1]), py(vs[1]), val(share.ID) % curveN(ec))) && py(v) == ecaddy(ec, px(vs[0]), py(vs[0]), ecmulx(ec, px(vs[1]), py(vs[1]), val(share.ID) % curveN(ec)), ecmuly(ec, px(vs[1]), py(vs[1]), val(share.ID) % curveN(ec))))
 //@   loop 0 invariant issecp(ec) ==> val(t) % curveN(ec) != 0
 //@   loop 0 invariant fieldheap("crypto.ECPoint", "curve") == old(fieldheap("crypto.ECPoint", "curve"))
 
